@@ -1,6 +1,7 @@
 import Hive.Model.WorkerPoolSched
 import Hive.Model.WorkerPoolGroupSd
 import Hive.Model.WorkerPoolSync
+import Hive.Model.WorkerPoolDebounce
 import Hive.Base.Proto
 /-!
 # Line protocol of `drv_c16`
@@ -18,6 +19,9 @@ structure DrvSt where
   gs : Hive.WPG.GS := {}
   subs : List Hive.WPG.Sub := []
   sync : Hive.WPS.SyncSt := {}
+  dcalls : Nat := 0            -- debounce trace: calls made, last executed invocation, verdict so far
+  dlast : Nat := 0
+  dok : Bool := true
 
 def DrvSt.init : DrvSt := {}
 
@@ -27,6 +31,18 @@ def stepLine (s : DrvSt) (toks : List String) : DrvSt × String :=
   | "run" :: _ => (s, "ok")
   | "hammer" :: _ => (s, "ok")
   | "lockrace" :: _ => (s, "ok")
+  | "debounce" :: _ => ({ s with dcalls := 0, dlast := 0, dok := true }, "ok")
+  | ["dcall"] => ({ s with dcalls := s.dcalls + 1 }, "ok")
+  | ["x", k] =>
+    -- one more executed invocation: `Hive.WPD.execsOk` step by step (strictly increasing, a call that was made)
+    match k.toNat? with
+    | some n =>
+      if s.dok && Hive.WPD.execsOk s.dcalls s.dlast [n] then ({ s with dlast := n }, "ok")
+      else ({ s with dok := false }, "reject x")
+    | none => (s, "bad-op")
+  | ["dend"] =>
+    -- all tasks have finished: the latest invocation must have been executed (C16_debounce, fourth clause)
+    (s, if s.dok && s.dlast == s.dcalls then "accept" else "reject dend")
   | "sync" :: _ => ({ s with sync := {} }, "ok")
   | ["c", op, a] => let r := Hive.WPS.syncLine s.sync "c" op a; ({ s with sync := r.1 }, r.2)
   | ["q", op, a] => let r := Hive.WPS.syncLine s.sync "q" op a; ({ s with sync := r.1 }, r.2)
